@@ -103,6 +103,7 @@ type c15Seq struct {
 	Adapter bool   `json:"middleware_adapter_between_observer_and_handler"`
 	Copy    bool   `json:"body_chunks_via_io_copy"` // body chunks are sent with io.Copy(resp, reader) instead of resp.Write
 	HWF     bool   `json:"plain_handler_via_HandleWithFilter"`
+	Panic   bool   `json:"handler_panics_after_its_calls"` // recovery is on; IF the observing filter resumes, what it reads must be true
 }
 
 var c15Firsts = []string{"none", "WriteHeader", "WriteEntity", "WriteHeaderAndEntity", "WriteAsJson", "WriteAsXml", "WriteHeaderAndJson", "WriteHeaderAndXml", "WriteJson",
@@ -126,7 +127,8 @@ type c15Run struct {
 	lenSeen    int
 	fw         *faultWriter
 	panicked   interface{}
-	plainSent  int // plaintext bytes handed to calls that returned no error (direct Write calls only)
+	observed   bool // the observing filter's code behind ProcessFilter ran
+	plainSent  int  // plaintext bytes handed to calls that returned no error (direct Write calls only)
 }
 
 func runC15(s *c15Seq, limit int) *c15Run {
@@ -141,7 +143,15 @@ func runC15(s *c15Seq, limit int) *c15Run {
 		// "both are what filters after the handler observe"
 		run.statusSeen = resp.StatusCode()
 		run.lenSeen = resp.ContentLength()
+		run.observed = true
 	})
+	if s.Panic {
+		c.DoNotRecover(false)
+		c.RecoverHandler(func(v interface{}, w http.ResponseWriter) {
+			w.WriteHeader(500)
+			w.Write([]byte("recovered"))
+		})
+	}
 	if s.Adapter {
 		// an adapted net/http middleware sits between the observing filter and the handler
 		c.Filter(restful.HttpMiddlewareHandlerToFilter(func(next http.Handler) http.Handler {
@@ -203,6 +213,9 @@ func runC15(s *c15Seq, limit int) *c15Run {
 				}
 				return err
 			})
+		}
+		if s.Panic {
+			panic("handler panics after its calls")
 		}
 	}
 	c.HandleWithFilter("/hwf/", http.HandlerFunc(func(w http.ResponseWriter, r *http.Request) {
@@ -299,7 +312,7 @@ func c15Huge(ctx *core.Ctx) {
 
 func c15(ctx *core.Ctx) {
 	quietLogs()
-	ctx.Rule("generated call sequences: first call in {none, WriteHeader, WriteEntity (JSON/XML by Accept, also the 406 dead end), WriteHeaderAndEntity, WriteAsJson/Xml, WriteHeaderAndJson/Xml, WriteJson, WriteError (err / nil), WriteErrorString, WriteServiceError} with payload {small, 500-byte, nil, unmarshalable} and pretty-print on/off (package switch or Response.PrettyPrint), then 0-5 body chunks of {0,1,10,300} bytes sent with Write or io.Copy (the underlying writer is an io.ReaderFrom, as net/http's is); every 9th sequence is a plain handler behind HandleWithFilter (WriteHeader + Write); three responses of 2 GiB - 1, 2 GiB + 1 MiB and 4 GiB + 5 bytes streamed in 64 MiB calls; without coding and with gzip/deflate in between. Faults: the underlying writer accepts exactly k bytes then fails every call, k enumerated over EVERY byte position of the fault-free output (call boundaries and inside calls). A trailing container filter reads StatusCode()/ContentLength(). Oracle: StatusCode() == status the underlying writer received (200 if none); without coding ContentLength() == bytes accepted and the call during which the writer first failed returns the injected error; with coding (fault-free) ContentLength() == plaintext length == decoded length. Non-trivial = a run with >= 1 body byte or a non-200 status; distinct by (first call, value, pretty, coding, fault class: none/at-boundary/inside-call, failing call kind).")
+	ctx.Rule("generated call sequences: first call in {none, WriteHeader, WriteEntity (JSON/XML by Accept, also the 406 dead end), WriteHeaderAndEntity, WriteAsJson/Xml, WriteHeaderAndJson/Xml, WriteJson, WriteError (err / nil), WriteErrorString, WriteServiceError} with payload {small, 500-byte, nil, unmarshalable} and pretty-print on/off (package switch or Response.PrettyPrint), then 0-5 body chunks of {0,1,10,300} bytes sent with Write or io.Copy (the underlying writer is an io.ReaderFrom, as net/http's is); every 9th sequence is a plain handler behind HandleWithFilter (WriteHeader + Write); every 11th sequence ends in a handler panic with recovery on (if the observing filter resumes at all, what it reads is judged); three responses of 2 GiB - 1, 2 GiB + 1 MiB and 4 GiB + 5 bytes streamed in 64 MiB calls; without coding and with gzip/deflate in between. Faults: the underlying writer accepts exactly k bytes then fails every call, k enumerated over EVERY byte position of the fault-free output (call boundaries and inside calls). A trailing container filter reads StatusCode()/ContentLength(). Oracle: StatusCode() == status the underlying writer received (200 if none); without coding ContentLength() == bytes accepted and the call during which the writer first failed returns the injected error; with coding (fault-free) ContentLength() == plaintext length == decoded length. Non-trivial = a run with >= 1 body byte or a non-200 status; distinct by (first call, value, pretty, coding, fault class: none/at-boundary/inside-call, failing call kind).")
 	ctx.Assume("at most one status-setting call, first in the sequence (as the property states)")
 	defer func() { restful.PrettyPrintResponses = true }()
 	if !ctx.Skip(0) {
@@ -317,6 +330,7 @@ func c15(ctx *core.Ctx) {
 		if si%5 == 3 {
 			s.Coding = r.Pick([]string{"gzip", "deflate"})
 		}
+		s.Panic = si%11 == 6 && !s.HWF
 		for i := 0; i < r.Intn(6); i++ {
 			s.Writes = append(s.Writes, []int{0, 1, 10, 300}[r.Intn(4)])
 		}
@@ -414,6 +428,22 @@ func judgeC15(ctx *core.Ctx, si int, s *c15Seq, run *c15Run, k int, cls string) 
 	}
 	if run.panicked != nil {
 		ctx.Violation(si, "c15:panic:"+cell, fmt.Sprintf("panic: %v", run.panicked), doc)
+		return
+	}
+	if s.Panic {
+		if !run.observed {
+			// the panic unwound through the observing filter: there is nothing it could have read
+			ctx.Count("panicking_runs_where_the_observing_filter_did_not_resume", 1)
+			return
+		}
+		cell += ":after-recovered-panic"
+		// the recover handler wrote through the raw writer; what the filter reads must still be what the client got
+		if run.statusSeen != run.fw.status && !(run.fw.status == 0 && run.statusSeen == 200) {
+			ctx.Violation(si, "c15:status:"+cell, fmt.Sprintf("the filter resumed after a recovered panic and read StatusCode()=%d, the underlying writer received %d", run.statusSeen, run.fw.status), doc)
+		}
+		if s.Coding == "" && run.lenSeen != run.fw.accepted {
+			ctx.Violation(si, "c15:length:"+cell, fmt.Sprintf("the filter resumed after a recovered panic and read ContentLength()=%d, the underlying writer accepted %d bytes", run.lenSeen, run.fw.accepted), doc)
+		}
 		return
 	}
 	wantStatus := run.fw.status
